@@ -178,13 +178,14 @@ func c13Shape(k int, tl int) ([]c13Piece, map[string]any) {
 }
 
 // VerifC13Render: (A) erasing whitespace from the outputs with and without the trim
-// tokens gives the same string; (B) when every hyphen faces literal text the output
-// equals the reference trimmer; (C) without trim tokens nothing is lost.
+// tokens gives the same string; (B) for every placement of hyphens the output equals the
+// reference trimmer (a hyphen strips the facing side of the literal text piece next to it and
+// nothing when what is next to it is not literal text); (C) without trim tokens nothing is lost.
 func VerifC13Render() {
+	// one symbolic byte per text piece in both tiers (thorough draws it from every ASCII byte plus
+	// 0x85, 0xA0 and 0xC3); two bytes per piece with that alphabet did not finish within the hour
+	// once the reference trimmer was asserted for every hyphen placement
 	tl := 1
-	if nd.Thorough() {
-		tl = 2
-	}
 	nd.Bound("C13.text_piece_bytes", tl)
 	nd.Bound("C13.value_bytes", 2)
 	k := nd.Choice(7)
